@@ -120,7 +120,7 @@ def exprName : Expr → Str
   | _ => []
 
 /-- `Field.Name()`. -/
-def Field.name (f : Field) : Str := if f.alias ≠ [] then f.alias else exprName f.expr
+def Field.rfName (f : Field) : Str := if f.alias ≠ [] then f.alias else exprName f.expr
 
 /-- The loop over `call.Args[1:len-1]` in `FieldExprByName`. -/
 def findRefArg (name : Str) : List Expr → Option Expr
@@ -132,7 +132,7 @@ def findRefArg (name : Str) : List Expr → Option Expr
 def fieldExprByName (name : Str) : List Field → Option Expr
   | [] => none
   | f :: rest =>
-    if f.name = name then some f.expr
+    if f.rfName = name then some f.expr
     else
       let viaArgs : Option Expr :=
         match f.expr with
@@ -308,7 +308,7 @@ def addKeys (dims : StrSet) : List Str → StrSet
 /-- The columns a subquery exposes: `(f.Name(), EvalType(f.Expr, stmt.Sources, m))`. -/
 def subqueryCols (m : TypeMapper) (sources : List Source) : List Field → List (Str × DataType)
   | [] => []
-  | f :: rest => (f.name, evalType m sources f.expr) :: subqueryCols m sources rest
+  | f :: rest => (f.rfName, evalType m sources f.expr) :: subqueryCols m sources rest
 
 /-- The `VarRef` dimensions of a statement. -/
 def dimRefs : List Expr → List Str
@@ -468,7 +468,7 @@ def expandField (re : Str → Str → Bool) (refs : List ColRef) (f : Field) : E
     | some (_, none) => .ok [f]
     | some (iname, some arg) =>
       let go (keep : ColRef → Bool) : Except Str (List Field) :=
-        .ok (callFields refs f.name (.call cname cargs) iname keep)
+        .ok (callFields refs f.rfName (.call cname cargs) iname keep)
       match arg with
       | .wildcard wt =>
         if wt = .TAG then .error (errTagWildcard ++ iname ++ ['(', ')'])
